@@ -419,6 +419,25 @@ fn exec_op(ctx: &mut Ctx, tok: &str) -> String {
             ctx.nvslot = ctx.dmd.get_nvram().to_vec();
             "-".into()
         }
+        // nsp:<off>:<val> patch one byte of the saved image and re-establish the firmware's option checksum
+        // (16-bit sum of the option bytes at offsets 2, 6, 10, ... 0x1ff6, kept at 0x1ffa / 0x1ffe)
+        "nsp" => {
+            let off = a(1) as usize;
+            if off < ctx.nvslot.len() {
+                ctx.nvslot[off] = a(2) as u8;
+            }
+            if ctx.nvslot.len() >= 0x2000 {
+                let mut sum: u32 = 0;
+                let mut i = 2;
+                while i <= 0x1ff6 {
+                    sum += u32::from(ctx.nvslot[i]);
+                    i += 4;
+                }
+                ctx.nvslot[0x1ffe] = sum as u8;
+                ctx.nvslot[0x1ffa] = (sum >> 8) as u8;
+            }
+            "-".into()
+        }
         "nrs" => {
             let v = ctx.nvslot.clone();
             ctx.dmd.set_nvram(&v);
